@@ -715,6 +715,34 @@ class Evaluator:
         `xs = []; xs.extend([<comprehension or display>])`: the first fill is a phase like the later ones (a list that is
         bound to a comprehension and then grown in place must not be read as the comprehension alone)."""
         MUT = {"append", "extend", "insert"}
+        # `xs += ys` on a name bound to a list (display, comprehension, []) at the top level of the function is `xs.extend(ys)`
+        lists_ = set()
+        for st in body:
+            tgt_ = st.targets[0] if isinstance(st, ast.Assign) and len(st.targets) == 1 else (st.target if isinstance(st, ast.AnnAssign) else None)
+            val_ = getattr(st, "value", None)
+            if isinstance(tgt_, ast.Name) and (isinstance(val_, ast.ListComp) or (isinstance(val_, ast.List) and val_.elts)):
+                lists_.add(tgt_.id)  # (an empty `[]` grown by `+=` in a loop is read as a comprehension elsewhere)
+        rebound = {}
+        for st in body:
+            for x in ast.walk(st):
+                if isinstance(x, (ast.Assign, ast.AnnAssign)):
+                    for t_ in (x.targets if isinstance(x, ast.Assign) else [x.target]):
+                        for nn in ast.walk(t_):
+                            if isinstance(nn, ast.Name):
+                                rebound[nn.id] = rebound.get(nn.id, 0) + 1
+        aug = [x for st in body for x in ast.walk(st) if isinstance(x, ast.AugAssign) and isinstance(x.op, ast.Add) and isinstance(x.target, ast.Name)
+               and x.target.id in lists_ and rebound.get(x.target.id, 0) == 1]
+        if aug:
+            import copy as _copy
+
+            class _Aug(ast.NodeTransformer):
+                def visit_AugAssign(self, node):
+                    if isinstance(node.op, ast.Add) and isinstance(node.target, ast.Name) and node.target.id in lists_ and rebound.get(node.target.id, 0) == 1:
+                        new_ = ast.Expr(value=ast.Call(func=ast.Attribute(value=ast.Name(id=node.target.id, ctx=ast.Load()), attr="extend", ctx=ast.Load()),
+                                                       args=[node.value], keywords=[]))
+                        return ast.fix_missing_locations(ast.copy_location(new_, node))
+                    return node
+            body = [_Aug().visit(_copy.deepcopy(st)) for st in body]
         grown = set()
         for st in body:
             for x in ast.walk(st):
@@ -748,6 +776,17 @@ class Evaluator:
         for key, outer in self.alloc_loops.items():
             als = [("alloc", k, key) for k in ("list", "dict", "set")]
             uses = [e for e in self.events if any(x in als for x in walk(e.term)) or any(x in als for x in walk(e.live))]
+            if not uses:
+                continue
+            # `return out` in front of the first fill (an early exit with the still empty accumulator) returns an empty container
+            MUT0 = ("append", "extend", "insert", "add", "update", "setdefault")
+            first_fill = next((e.idx for e in uses if (e.kind == "call" and e.term[1][0] == "attr" and e.term[1][1] in als and e.term[1][2] in MUT0)
+                               or (e.kind == "store" and e.term[1][0] == "sub" and e.term[1][1] in als)), None)
+            if first_fill is not None:
+                for e in list(uses):
+                    if e.idx < first_fill and e.kind == "return" and e.term in als and not e.loops:
+                        e.term = {"list": ("list", ()), "dict": ("dict", ()), "set": ("call", ("builtin", "set"), (), ())}[e.term[1]]
+                        uses.remove(e)
             if not uses:
                 continue
             m = uses[0]
@@ -987,13 +1026,26 @@ class Evaluator:
             # `d = {..}` ... `d["k"] = v` on the same path: d is the display with that item set
             nm = st.targets[0].value.id
             cur = self.env.get(nm)
-            if cur is not None and cur[0] == "dict" and cur[1] and self.dict_defs.get(nm) == (tuple(self.loop_stack), live) \
-                    and not any(kk[0] == "dstar" for kk, _ in cur[1]):
+            dd_ = self.dict_defs.get(nm)
+
+            def plain_displays(t_):
+                if t_[0] == "ite":
+                    return plain_displays(t_[2]) and plain_displays(t_[3])
+                return t_[0] == "dict" and bool(t_[1]) and all(kk[0] == "const" for kk, _ in t_[1])
+            # ... also in a branch of the path that bound the display (the join makes the item conditional), and on a display
+            # that already became conditional at an earlier join
+            if cur is not None and dd_ is not None and dd_[0] == tuple(self.loop_stack) and plain_displays(cur) \
+                    and all(c in conjuncts(live) for c in conjuncts(dd_[1])):
                 saved = len(self.events)
                 key = self.ev(st.targets[0].slice, live)
-                if key[0] == "const" and all(kk[0] == "const" for kk, _ in cur[1]) and len(self.events) == saved:
+                if key[0] == "const" and len(self.events) == saved:
                     val = self.ev(st.value, live)
-                    self.env[nm] = ("dict", self._dict_set(cur[1], key, val))
+
+                    def upd_(t_):
+                        if t_[0] == "ite":
+                            return ITE(t_[1], upd_(t_[2]), upd_(t_[3]))
+                        return ("dict", self._dict_set(t_[1], key, val))
+                    self.env[nm] = upd_(cur)
                     return live
                 del self.events[saved:]
         if isinstance(st, ast.Expr) and isinstance(st.value, ast.Call) and isinstance(st.value.func, ast.Attribute) \
@@ -1850,6 +1902,8 @@ class Evaluator:
             for k, v in base[1]:
                 if k == idx:
                     return v
+        if base[0] == "comp" and isinstance(n.ctx, ast.Load):
+            return fold_sub(("sub", base, idx))  # [f(x) for x in xs][k] is f(xs[k])
         return ("sub", base, idx)
 
     def e_Slice(self, n, live):
@@ -2026,6 +2080,22 @@ class Evaluator:
                 args.extend(av[1][1])  # f(*[a, b]) is f(a, b)
             else:
                 args.append(av)
+        # `Base.method(self, ...)` inside a method of a subclass, Base being the class the MRO would pick next for that method, is
+        # `super().method(...)`
+        base_q, meth_ = None, None
+        if f[0] == "attr" and f[1][0] == "global" and f[1][2] == "class":
+            base_q, meth_ = f[1][1], f[2]
+        elif f[0] == "global" and f[2] == "func" and "." in f[1].split(":")[-1]:
+            base_q, meth_ = f[1].rsplit(".", 1)
+        if base_q is not None and args and args[0] == ("param", "self") and self.cls is not None:
+            try:
+                mro_ = self.cls.mro()
+                nxt = next((c_ for c_ in mro_[1:] if meth_ in c_.methods), None)
+                if nxt is not None and self.index.canonical_qual("class", nxt.qual) == self.index.canonical_qual("class", base_q):
+                    f = ("attr", ("call", ("builtin", "super"), (), ()), meth_)
+                    args = args[1:]
+            except Exception:  # noqa: BLE001
+                pass
         kws = []
         for k in n.keywords:
             v = self.ev(k.value, live)
@@ -3715,6 +3785,14 @@ class _SummariesShim:
         return sub.run()
 
 
+def _ite_leaves(t):
+    return _ite_leaves(t[2]) + _ite_leaves(t[3]) if t[0] == "ite" else [t]
+
+
+def _ite_of_displays(t):
+    return all(x[0] == "dict" and all(kk[0] == "const" and isinstance(kk[1], str) for kk, _ in x[1]) for x in _ite_leaves(t))
+
+
 def fold_sub(t):
     """`(a, b)[0]` -> a and `getattr(x, "name")` -> x.name after a substitution made the container / name explicit."""
     if not isinstance(t, tuple) or not t:
@@ -3738,6 +3816,27 @@ def fold_sub(t):
             else:
                 items.append((k, v))
         return ("dict", tuple(items))
+    if t and t[0] == "call" and any(k == "**" and v[0] == "ite" and _ite_of_displays(v) for k, v in t[3]):
+        # f(**(D1 if c else D2)) with displays of constant keys: every key becomes a keyword whose value is conditional; a branch that
+        # does not give the key leaves it ('absent',) -- the callee's default applies there
+        kws = []
+        for k, v in t[3]:
+            if k == "**" and v[0] == "ite" and _ite_of_displays(v):
+                keys = []
+                for leaf in _ite_leaves(v):
+                    for kk, _ in leaf[1]:
+                        if kk[1] not in keys:
+                            keys.append(kk[1])
+
+                def pick(t_, key_):
+                    if t_[0] == "ite":
+                        return ITE(t_[1], pick(t_[2], key_), pick(t_[3], key_))
+                    hit = [vv for kk, vv in t_[1] if kk[1] == key_]
+                    return hit[-1] if hit else ("absent",)
+                kws.append(("**", ("dict", tuple((("const", key_), pick(v, key_)) for key_ in keys))))
+            else:
+                kws.append((k, v))
+        return fold_sub(("call", t[1], t[2], tuple(kws)))
     if t and t[0] == "call" and any(k == "**" and v[0] == "dict" and all((kk[0] == "const" and isinstance(kk[1], str)) or kk == ("dstar",)
                                                                          for kk, _ in v[1]) for k, v in t[3]):
         # f(**{"a": x, **rest}) is f(a=x, **rest)
@@ -3757,6 +3856,11 @@ def fold_sub(t):
     if t and t[0] == "call" and t[1] == ("builtin", "getattr") and len(t[2]) == 2 and not t[3] and t[2][1][0] == "const" \
             and isinstance(t[2][1][1], str) and t[2][1][1].isidentifier():
         return ("attr", t[2][0], t[2][1][1])
+    if t and t[0] == "sub" and t[1][0] == "comp" and t[1][1] == "list" and len(t[1][3]) == 1 and not t[1][3][0][2] \
+            and t[2][0] == "const" and isinstance(t[2][1], int) and not isinstance(t[2][1], bool) and t[2][1] >= 0:
+        # [f(x) for x in xs][k] is f(xs[k])
+        lid_, it_, _ = t[1][3][0]
+        return fold_sub(subst(t[1][2], {("elem", lid_): fold_sub(("sub", it_, t[2]))}))
     if t and t[0] == "sub" and t[1][0] in ("tuple", "list") and t[2][0] == "const" and isinstance(t[2][1], int) \
             and not isinstance(t[2][1], bool) and -len(t[1][1]) <= t[2][1] < len(t[1][1]) \
             and not any(x[0] == "star" for x in t[1][1]):
